@@ -59,7 +59,8 @@ pub fn profile_for(prop: &str) -> Profile {
             market_share: 0.15,
             property: "C03",
             monitors: LEDGER,
-            w: [28, 26, 5, 6, 8, 14, 4, 22, 4, 3, 0, 0],
+            // (snapshot reloads too: the counter and the log must survive a crash-restart unchanged)
+            w: [28, 26, 5, 6, 8, 14, 4, 22, 4, 3, 3, 0],
             modify_only_via_event: false,
             drain: true,
             start_halted: 0.05,
@@ -92,9 +93,11 @@ pub fn profile_for(prop: &str) -> Profile {
             market_share: 0.15,
             property: "C06",
             monitors: MODEL | MODIFY_INV,
-            w: [34, 16, 3, 5, 6, 30, 6, 24, 0, 0, 0, 0],
+            // (halts leave the book crossed, so that an unchanged-price re-entry can cross; reloads must keep the queue order)
+            w: [34, 16, 3, 5, 6, 30, 6, 24, 3, 0, 2, 0],
             modify_only_via_event: false,
             drain: true,
+            start_halted: 0.08,
             ..base
         },
         "C07" => Profile {
